@@ -677,6 +677,27 @@ add({"name": "extract_unused_spans", "file": "dfs/cmd_extract_unused.cc",
                (r"(for \(sector_count_type sec = 0; sec <= last_sec; \+\+sec\))", r"\1 SPANS_LOOP_CONTRACT", 1)],
      "dropped": ["the destination directory argument of write_span (see C12)"]})
 
+# ---- cmd_extract_files.cc (C11: a host file being created by extract-files) --------------------------------------------
+add({"name": "extract_files_visitor", "file": "dfs/cmd_extract_files.cc",
+     "anchor": r"\[&crc, &outfile, &output_body_file\]\s*\(const DFS::byte\* begin,\s*const DFS::byte\* end\)",
+     "sig": "static bool extract_files_visitor(const byte *begin, const byte *end)",
+     "pre": "#define outfile (&ofs_obj)\n", "post": "#undef outfile\n",
+     "rules": [(r"crc\.update\(begin, end\);", "crc_update_model(begin, end);", 1),
+               (r"outfile\.write\(reinterpret_cast<const char\*>\(([^)]*)\),\s*([^;]*)\);", r"ofs_write_n(outfile, \1, (size_t)(\2));", 1),
+               (r"!outfile\b(?!\.)", "!ofs_ok(outfile)", ">=0"), (r"!outfile\.good\(\)", "!ofs_ok(outfile)", ">=0"),
+               (r"std::cerr << [^;]*;", "g_diag++;  /* diagnostic text dropped */", ">=0")],
+     "dropped": ["diagnostic text"]})
+add({"name": "extract_files_write_body", "file": "dfs/cmd_extract_files.cc",
+     "anchor": r"std::ofstream outfile\(output_body_file, std::ofstream::out\);", "region_end": r"const string inf_file_name",
+     "sig": "static bool extract_files_write_body(void)", "region_epilogue": "return true;\n",
+     "pre": "#define outfile (&ofs_obj)\n", "post": "#undef outfile\n",
+     "rules": [(r"std::ofstream outfile\(output_body_file, std::ofstream::out\);", "ofs_open(outfile);", 1),
+               (r"auto ok = entry\.visit_file_body_piecewise\s*\(mounted->volume\(\)->data_region\(\),\s*\[&crc, &outfile, &output_body_file\].*?\}\);", "_Bool ok = visit_body_model();", 1),
+               (r"outfile\.close\(\);", "ofs_close(outfile);", 1),
+               (r"!outfile\b(?!\.)", "!ofs_ok(outfile)", ">=0"), (r"!outfile\.good\(\)", "!ofs_ok(outfile)", ">=0"),
+               (r"std::cerr << [^;]*;", "g_diag++;  /* diagnostic text dropped */", ">=0")],
+     "dropped": ["diagnostic texts", "the visitor lambda (extracted separately: extract_files_visitor)"]})
+
 # ---- track.cc (C06 iii, C07): check_track_is_supported ---------------------------------------------------------------
 ERR_SS = (r"ss << [^;]*;\s*error = ss\.str\(\);", "g_diag++;  /* diagnostic text dropped */")
 add({"name": "check_track_is_supported", "file": "dfs/track.cc",
